@@ -450,6 +450,9 @@ func init() {
 				c02caseQueue = c02caseQueue[1:]
 				return c
 			}
+			if idx%96 == 11 {
+				return c02Large(r, idx/96)
+			}
 			o := c02Opts()
 			switch r.Intn(6) {
 			case 0:
